@@ -267,7 +267,7 @@ def build_parser(parser=None):
               '" " for chains without ID [all]'))
     group.add_argument(
         "-i", "--titrate_only", dest="titrate_only",
-        type=parse_res_list,
+        type=parse_res_list, action="extend",
         help=('Treat only the specified residues as titratable. Value should '
               'be a comma-separated list of "chain:resnum" values; for '
               'example: -i "A:10,A:11"'))
